@@ -217,6 +217,8 @@ pub fn gen_method(rng: &mut Rng, cfg: &DocCfg, pool: &TypePool) -> MethodDoc {
         code: match rng.below(16) {
             0 | 1 => Some(format!("{}", rng.below(4))),
             2 => Some(format!("00{}", rng.below(4))),
+            // a leading zero is not an octal prefix, and 8 and 9 are digits
+            6 => Some((*rng.pick(&["010", "012", "018", "08", "09", "0017", "10", "12", "8"])).to_owned()),
             // zero-padded beyond the length of u32::MAX: the value still fits
             3 => Some(format!("000000000000{}", rng.below(4))),
             4 => Some((*rng.pick(&["4294967295", "16777214", "16777215", "16777216", "65535", "65536", "2147483647", "2147483648"])).to_owned()),
@@ -323,6 +325,12 @@ pub fn gen_import(rng: &mut Rng, project_keys: &[String]) -> Vec<String> {
         0..=4 if !project_keys.is_empty() => split(rng.pick(project_keys).as_str()),
         5 => split(*rng.pick(BUILTIN_QUALIFIED)),
         6 => split(*rng.pick(&["z.Nope", "a.b.Missing", "q.Foo", "a.Unknown", "x.IBinder"])),
+        // something INSIDE a project item (a nested name): not a key, whatever the project holds
+        7 if !project_keys.is_empty() => {
+            let mut v = split(rng.pick(project_keys).as_str());
+            v.push((*rng.pick(&["Inner", "Foo", "Stub"])).to_owned());
+            v
+        }
         _ => {
             let mut v: Vec<String> = rng.pick(PACKAGES).iter().map(|s| (*s).to_owned()).collect();
             v.push((*rng.pick(ITEM_NAMES)).to_owned());
